@@ -632,6 +632,13 @@ func (e *Enc) loopModifies(li *loopInfo) *loopMods {
 						lm.sorts[s] = nil
 					}
 				}
+			case *ssa.Next:
+				// range over a string: the iterator object's position cell advances
+				if x.IsString {
+					if it, ok := e.vals[x.Iter]; ok && !it.Bad && len(it.L) == 1 {
+						lm.cells[SI] = append(lm.cells[SI], [3]string{it.L[0], e.M.ilit(0), e.M.ilit(1)})
+					}
+				}
 			case *ssa.MapUpdate, *ssa.Send:
 				// maps are not modelled in the heap
 			case *ssa.RunDefers:
